@@ -318,6 +318,19 @@ func (f *frame) libCall(callee *ssa.Function, c *ssa.CallCommon, base string, re
 		r := f.resultHavoc(base, resT)
 		f.assume(fmt.Sprintf("(= (rv-of %s) %s)", r.term, arg(0)))
 		return r
+	case "regexp.(*regexp.Regexp).FindStringSubmatchIndex", "regexp.(*regexp.Regexp).FindSubmatchIndex", "regexp.(*regexp.Regexp).FindStringIndex", "regexp.(*regexp.Regexp).FindIndex":
+		used("Find*Index return nil for no match, else index pairs: an even number (>= 2) of ints, the first pair the match with 0 <= loc[0] <= loc[1] <= len(s)")
+		r := f.resultHavoc(base, resT)
+		ln := fmt.Sprintf("(sl-len %s)", r.term)
+		key, srt := e.elemHeapKey(types.Typ[types.Int])
+		arr := fmt.Sprintf("(select %s (sl-ref %s))", e.heapGet(f.curHeap, key, srt), r.term)
+		at := func(i int) string { return fmt.Sprintf("(select %s (bvadd (sl-off %s) %s))", arr, r.term, bvLit(int64(i), 64)) }
+		slen := fmt.Sprintf("(slen %s)", arg(1))
+		if e.R.sortOf(c.Args[1].Type()) != "Str" {
+			slen = fmt.Sprintf("(sl-len %s)", arg(1))
+		}
+		f.assume(fmt.Sprintf("(or (= (sl-ref %s) 0) (and (bvsge %s #x0000000000000002) (= ((_ extract 0 0) %s) #b0) (bvsle #x0000000000000000 %s) (bvsle %s %s) (bvsle %s %s)))", r.term, ln, ln, at(0), at(0), at(1), at(1), slen))
+		return r
 	case "bytes.NewBuffer", "bytes.NewBufferString", "strings.NewReader", "strings.NewReplacer":
 		used("constructor returns a non-nil pointer")
 		r := f.resultHavoc(base, resT)
